@@ -53,13 +53,15 @@ def run(rep):
         "get_shur_magh: preconditions of the correction obligation - the first approximation is within 1 deg of h0 and not grazing "
         "(|cos dec cos lat sin H| >= 0.05); that the first approximation meets them for |lat| <= 60 is not solver-decided",
         "|sin lat sin dec + cos lat cos dec cos H| <= 1 (cosine of the zenith distance) is used as a premise"]
-    obls = [(kernels.shur_magh_adj, 60), (kernels.shur_magh_correction, 60), (transit.sdm_wiring, None), (transit.hour_angle_formula, None), (wiring.get_hours_wiring, None), (wiring.prayer_times_dt_wiring, False),
+    obls = [(kernels.shur_magh_adj, 60), (kernels.shur_magh_correction, 60), (transit.sdm_wiring, None), (transit.hour_angle_formula, None), (wiring.astro_new_obls, None), (wiring.get_hours_wiring, None), (wiring.prayer_times_dt_wiring, False),
             (wiring.prayer_times_dt_wiring, True), (jd.jd_formula, (1600, 2399))]
     res = base.run_obligations(rep, obls)
     if any(x["cands"] for x in res if x["name"].startswith("JulianDay")):
         from . import c01
         c01.confirm_jd(rep, res)
-    kres = [x for x in res if not x["name"].startswith("JulianDay")]
+    from . import ephsweep as _es
+    _es.confirm_jd_candidates(rep, res, ("dhuhr", "riseset"))
+    kres = [x for x in res if not x["name"].startswith(("JulianDay", "Astro::new"))]
     if any((x["cands"] or x["inconclusive"]) for x in kres):
         weather_native(rep)
     kp.confirm(rep, kres, WANT, 60)
